@@ -80,7 +80,13 @@ def prove_property(pid, tier="quick", log=print):
                                                   "trace": [str(t) for t in p.trace][:20]})
             f["paths_cover_checked"] = n_cover
             names_seen = set()
+            seen_vc = set()
             for ob in rep.obligations:
+                # the same verification condition is regenerated on every path that shares the prefix: discharge once
+                key = (ob.name, ob.meta.get("variant"), hash(ob.goal.sexpr()), hash(tuple(h.sexpr() for h in ob.hyps)))
+                if key in seen_vc:
+                    continue
+                seen_vc.add(key)
                 r = discharge(ob, timeout_ms=timeout)
                 names_seen.add(ob.name)
                 rec = {"name": ob.name, "kind": ob.kind, "function": c.target, "variant": ob.meta.get("variant"),
